@@ -184,3 +184,87 @@ def report_rejections(rep, pid, rejections, tagbase):
                       % (layer, reason, t.label), obj)
         n += 1
     return pol
+
+
+# ------------------------------------------------------------------ shared stimuli
+def planted_files(rng, full=True):
+    """(name, file bytes, expected plaintext or None when the sequential decoding fails, I/O block size)"""
+    out = []
+    for iob in (256, 1024):
+        d, p = bzcraft.f1_file(iob)
+        out.append(("f1_%d" % iob, d, p, iob))
+        d, p = bzcraft.f2_file(iob)
+        out.append(("f2_%d" % iob, d, p, iob))
+    d, p = bzcraft.garbage_with_block()
+    out.append(("garbage_blk", d, p, 64))
+    d, p = bzcraft.garbage_with_stream()
+    out.append(("garbage_stream", d, p, 64))
+    d, p = bzcraft.nested_valid_file()
+    out.append(("nested_valid", d, p, 64))
+    d, p = bzcraft.nested_valid_file(iob=128)
+    out.append(("nested_valid_128", d, p, 128))
+    d, p = bzcraft.straddle_file(256)
+    out.append(("straddle_256", d, p, 256))
+    if full:
+        # sequential decoding fails: same planted files with the last block's CRC / the stream CRC damaged
+        d, p = bzcraft.nested_valid_file()
+        ins = bzfmt_inspect(d)
+        b = ins.blocks[-1]
+        bad = bytearray(d)
+        pos = b.at["crc"][0] + 7
+        bad[pos // 8] ^= 0x80 >> (pos % 8)
+        out.append(("nested_valid_badcrc", bytes(bad), None, 64))
+        d, p = bzcraft.f1_file(256)
+        bad = bytearray(d)
+        bad[-2] ^= 0x10                               # stream CRC
+        out.append(("f1_256_badstream", bytes(bad), None, 256))
+    multi = bz2.compress(rng.randbytes(5000), 1) + bz2.compress(b"abc" * 3000, 9) + bz2.compress(b"", 5)
+    out.append(("multi", multi, bz2.decompress(multi), 128))
+    return out
+
+
+def bzfmt_inspect(d):
+    import bzfmt
+    return bzfmt.inspect(d)
+
+
+def expand_cases(files, seeds, configs, extra_args=()):
+    cases = []
+    for name, data, plain, iob in files:
+        for s in seeds:
+            for W, tin, tout, og in configs:
+                env = {"VERIF_SCHED_SEED": s, "VERIF_IN_GRANUL": iob, "VERIF_OUT_GRANUL": og,
+                       "VERIF_IN_SLOTS": tin, "VERIF_OUT_SLOTS": tout}
+                cases.append(Case("%s|d W=%d %s" % (name, W, env), ["-d", "-n", str(W)] + list(extra_args), data, env,
+                                  expect_out=plain, expect_fail=plain is None, kind="expand", timeout=20))
+    return cases
+
+
+def event_counts(runs):
+    """Non-vacuity: how often each discard / take path of the decompressor was really exercised."""
+    import collections
+    c = collections.Counter()
+    for t in runs:
+        if not t.trace or not os.path.exists(t.trace):
+            continue
+        for line in open(t.trace):
+            if '"e":"ScanEnd"' in line and '"kind":"unique"' in line:
+                c["scan_unique"] += 1
+            elif '"e":"ScanEnd"' in line and '"kind":"known"' in line:
+                c["scan_known"] += 1
+            elif '"e":"Reorder"' in line and '"kind":"bogus"' in line:
+                c["reorder_bogus"] += 1
+            elif '"e":"RetrEnd"' in line:
+                for k in ("dead", "redundant", "overtaken"):
+                    if '"kind":"%s"' % k in line:
+                        c["retr_" + k] += 1
+            elif '"e":"ParseBlock"' in line:
+                if '"kind":1' in line:
+                    c["parse_took_complete"] += 1
+                elif '"kind":2' in line:
+                    c["parse_took_incomplete"] += 1
+                if '"stale":0' not in line:
+                    c["parse_discarded_stale"] += 1
+            elif '"e":"AvailDrop"' in line:
+                c["avail_dropped_after_finish"] += 1
+    return dict(c)
